@@ -666,6 +666,50 @@ theorem flush_during_wait_atomic_reachable (H : Hist) {B : Nat} (cfg : GcCfg) (h
   exact flush_during_wait_atomic H B n h.le
 
 
+/-! ### the header-hash page pass and the write cache (seeded C02-m8) -/
+
+
+/-- **page_gc_spares_restart_page** — what removeOldHeaderHashes may delete is bounded by the FLUSHED header height
+alone: `gcPagesTill` reads `SYSCurrentHeader` from the backend, the write cache (headers that arrived since the
+flush, a header-hash page they completed) is not an argument of it. Every page start `q` the pass deletes lies at
+least two pages below the stored header count of the flushed header height `hh`, i.e. strictly below the page
+`storedCnt B hh - B` that HeaderHashes.init reads after a power loss before the next flush; that page is untouched. -/
+theorem page_gc_spares_restart_page {B : Nat} (hB : 0 < B) (db : Db) (hh tgt : Nat)
+    (hch : db Key.curHeader = some (Val.ptr hh)) :
+    (∀ q, q ≤ gcPagesTill B db tgt → 0 < gcPagesTill B db tgt → q + B + B ≤ storedCnt B hh) ∧
+    (0 < gcPagesTill B db tgt →
+      dropPages (gcPagesTill B db tgt) db (Key.page (storedCnt B hh - B)) = db (Key.page (storedCnt B hh - B))) := by
+  refine ⟨fun q hq hpos => ?_, fun hpos => ?_⟩
+  · have := gcPagesTill_bound (B := B) hch hpos
+    omega
+  · have := gcPagesTill_bound (B := B) hch hpos
+    apply dropPages_other
+    intro q e
+    simp at e
+    omega
+
+/-- the rule of seeded change C02-m8: the same cap computed from the IN-MEMORY header height. -/
+def gcPagesTillMem (B hdrHeight tgt : Nat) : Nat := min (pagesTill B tgt) (((hdrHeight + 1) / B - 2) * B)
+
+/-- headers cross the end of a header-hash page between a flush and the page pass of its GC cycle (B = 2: four
+blocks flushed at header height 4, header 5 arrives, GC target 3): the code's rule commits no page deletion and every
+prefix reopens - with header 5 and the page it completed only in the write cache; the in-memory rule would delete
+page 2, which the flushed state (stored header count 4) needs: `noPage`. -/
+def pageGcSchedule : List GOp :=
+  [.base .block, .base .block, .base .block, .base .block, .base .flush, .base (.headers 5), .gcRun 0 (fun _ v => v)]
+
+theorem page_gc_headers_in_cache_example :
+    (grun Hgc 2 { mtb := 1, gcp := 1 } pageGcSchedule).2.length = 2 ∧
+    (grun Hgc 2 { mtb := 1, gcp := 1 } pageGcSchedule).1.n.hdrHeight = 5 ∧
+    (grun Hgc 2 { mtb := 1, gcp := 1 } pageGcSchedule).1.n.view (Key.page 4) = some Val.pagev ∧
+    (grun Hgc 2 { mtb := 1, gcp := 1 } pageGcSchedule).1.n.db (Key.page 4) = none ∧
+    (∀ k ∈ [0, 1, 2], errOf (recover Hgc 2 1 (foldBatches ((grun Hgc 2 { mtb := 1, gcp := 1 } pageGcSchedule).2.take k) Db.empty)) = none) ∧
+    gcPagesTill 2 (grun Hgc 2 { mtb := 1, gcp := 1 } pageGcSchedule).1.n.db 3 = 0 ∧
+    gcPagesTillMem 2 5 3 = 2 ∧
+    errOf (recover Hgc 2 1 (dropPages (gcPagesTillMem 2 5 3) (grun Hgc 2 { mtb := 1, gcp := 1 } pageGcSchedule).1.n.db)) = some .noPage := by
+  decide
+
+
 /-! ### Reset on a RemoveUntraceableBlocks node (refused since b08d698) -/
 
 
